@@ -830,6 +830,17 @@ def check_conformal(ctx, cid, info, steps, script):
         vu = obs_of(steps, "dump u meta", "values")
         if vc is None or vu is None or hexl(vc) != hexl(vu):
             V("conformal.loaded-values-changed", "setting the transforms on a loaded grid changed the values")
+        # integrate() of the transformed grid = its own quadrature weights (conformal derivative x linear scale) times the loaded values
+        iu = obs_of(steps, "integ u", "integ")
+        if iu is not None and qt is not None and vu is not None and len(vu) == n * outs and len(iu) == outs:
+            for k in range(outs):
+                want = math.fsum(qt[i] * vu[i * outs + k] for i in range(n))
+                cond = math.fsum(abs(qt[i] * vu[i * outs + k]) for i in range(n))
+                if abs(iu[k] - want) > 1e-11 * max(1.0, cond):
+                    V("conformal%s.integrate-vs-weights" % ("-and-linear" if both else ""),
+                      "integrate output %d = %r but the quadrature weights of the same transformed grid times the values give %r" % (k, iu[k], want))
+                    break
+            ctx.count("conformal_integrate_compared", outs)
         vscale = max([1.0] + [abs(v) for v in (vc or [])])
         lam = max([1.0] + [math.fsum(abs(v) for v in s_.obs["iw"]) for s_ in steps if s_.cmd.startswith("iw c ") and "iw" in s_.obs])
         if lam > 100.0:
